@@ -33,7 +33,7 @@ META = {
 
 def engine_part(ctx):
     rng = ctx.rng
-    n = ctx.n(120, 2500)
+    n = ctx.n(60, 2500)
     base = []
     for i in range(n):
         shape, G = E.gen_graph(rng, E.SHAPES[i % len(E.SHAPES)] if i < 3 * len(E.SHAPES) else None)
@@ -108,7 +108,7 @@ SOLVERS = [("slg", H.SLG), ("rec", H.REC)]
 
 def solver_part(ctx):
     rng = ctx.rng
-    progs = H.programs(rng, ctx.n(6, 80), goals_per=(3, 1, 1))
+    progs = H.programs(rng, ctx.n(3, 80), goals_per=(2, 1, 1))
     c1, i1 = [], []
     for pi, (p, text, goals, gts) in enumerate(progs):
         for sname, solver in SOLVERS:
@@ -130,7 +130,7 @@ def solver_part(ctx):
                     continue
                 ns = list(range(min(N, ctx.n(200, 2000))))
                 if ctx.quick and len(ns) > 7:
-                    stride = max(1, len(ns) // 5)
+                    stride = max(1, len(ns) // 4)
                     ns = sorted(set([0, 1, len(ns) - 1] + ns[::stride]))
                 for k in ns:
                     i2.append((pi, sname, gi, (k,)))
@@ -166,6 +166,8 @@ def solver_part(ctx):
                 cls = None
                 if sname == "slg" and H.f7_class(p, goals, hist):
                     cls = "F7-slg-coinductive-cycle"
+                elif sname == "slg" and H.f16_class(p, goals[g]):
+                    cls = "F16-slg-answer-order"
                 elif sname == "rec" and H.mixed_class(p, goals):
                     cls = "F27-mixed-cycle"
                 rec = {"kind": "solver-crash", "program": text, "solver": sname, "crashed_goal": gts[gi], "db_call": list(ks),
